@@ -321,3 +321,16 @@ def c17(ck):
     gen_and_replay(ck, "GenC17", consts, timeout=1500)
     ck.exhaustive = True
     ck.extra["bounds"] = consts
+
+
+@check("C20")
+def c20(ck):
+    ck.rule = ("every signature shape (ctx x 0..2 fixed parameters x variadic x 0..2 results x {int, MalType, mixed, "
+               "error-interface} typing = 144 generated Go functions) x declared bound pairs x argument lists of length "
+               "0..5 in 7 patterns over nil/1/\"s\"/(1) x behaviour (return, returned error, panic(error), panic(value)) x "
+               "registration entry point (Call / CallOverrideFN) x import path with / without a dot; GenC20.tla's Contract "
+               "decides invoke-or-error and the result convention; the real binder is called through lisp.EVAL and the "
+               "generated functions record whether they were entered, with which arguments and context")
+    consts = {"Full": "FALSE" if ck.quick else "TRUE"}
+    gen_and_replay(ck, "GenC20", consts, timeout=1500)
+    ck.exhaustive = True
